@@ -199,6 +199,33 @@ def run(F, chk):
     chk.floor(R2, 100)
     chk.floor(R1, 2)
 
+    # ---------------------------------------------------------------- R2.4 the primitive layer itself
+    R4 = chk.rule("R2.4", "in write mode the stream primitives (NiStreamReversible / NiOStream methods) never assign to the operand "
+                          "they are given: writing a value must not change it")
+    for fn in sorted(F.fns.values(), key=lambda f: f["id"]):
+        if fn.get("cls") not in ("nifly::NiStreamReversible", "nifly::NiOStream") or fn.get("tmpl") == "pattern" or fn.get("ctor"):
+            continue
+        refparams = {p["id"]: p["name"] for p in fn.get("params", [])
+                     if (p.get("ct") or p.get("t") or "").rstrip().endswith(("&", "*")) and "const" not in (p.get("ct") or p.get("t") or "").split("&")[0].split("*")[0]}
+        if not refparams:
+            continue
+        col = flow.Collect(F, fn, lambda n: n["k"] in ("Assign", "Unary"), mode=flow.MODE_WRITE)
+        col.run()
+        bad = []
+        for n, sts in col.by_node():
+            tgt = n["l"] if n["k"] == "Assign" else (n["e"] if n["op"] in ("++", "--") else None)
+            root = tgt
+            while is_node(root) and root["k"] in ("Member", "Subscript", "Cast", "Unary"):
+                root = root.get("base") if root["k"] in ("Member", "Subscript") else root.get("e")
+            if is_node(root) and root["k"] == "Ref" and root.get("id") in refparams and any(st is not None for st in sts):
+                bad.append(n)
+        chk.instance(R4, ok=not bad, sample={"primitive": fn["name"], "operands": sorted(refparams.values())})
+        for n in bad[:1]:
+            chk.violation("R2.4", "C02/R2.4:%s" % strip_targs(fn["name"]), where(fn, n),
+                          "%s assigns to its operand `%s` while writing: every field written through it is changed in the live model "
+                          "by saving" % (fn["name"], show(n["l"] if n["k"] == "Assign" else n["e"])))
+    chk.floor(R4, 5)
+
     # ---------------------------------------------------------------- R2.3
     fin = F.fn1("nifly::NifFile::FinalizeData")
     reach = F.reachable([fin["id"]])
